@@ -110,7 +110,9 @@ type World struct {
 	started   int
 	auditing  bool
 	ls        *kernel.Lockstep // lockstep specs only
-	mu        sync.Mutex       // timed mode only: guards opSeq and active
+	// scripted histories (C15): the answer to the next parked call of an audit request; nil = honest
+	auditDecide func(p *kernel.Parked) kernel.Decision
+	mu          sync.Mutex // timed mode only: guards opSeq and active
 }
 
 // New returns a constructor for the kernel.
@@ -856,7 +858,11 @@ func (w *World) do(op *Op) {
 			time.Sleep(time.Second)
 			continue
 		}
-		w.s.Release(ps[0], kernel.Decision{Kind: "ok"})
+		d := kernel.Decision{Kind: "ok"}
+		if w.auditDecide != nil {
+			d = w.auditDecide(ps[0])
+		}
+		w.s.Release(ps[0], d)
 	}
 	op.Checked = true
 	w.active--
